@@ -129,12 +129,21 @@ def gen_bar_spec(rng, n, d, fill="random", channel=0, pitches=None, grid=None):
     if fill == "empty":
         return spec
     grid = grid or rng.choice([6, 6, 12, 4, 3])
-    pitches = pitches or sorted({rng.randrange(40, 90) for _ in range(rng.randrange(1, 4))})
+    if pitches is None:
+        r = rng.random()
+        # one bar in five lies at the edge of the pitch range: a transposition then wraps by an octave, which is the branch
+        # that re-normalises and re-quantises note lengths
+        lo, hi = (40, 90) if r < 0.8 else ((21, 27) if r < 0.9 else (102, 109))
+        pitches = sorted({rng.randrange(lo, hi) for _ in range(rng.randrange(1, 4))})
     last_end = {}
     limit = L if fill != "short" else max(grid, (L // 2 // grid) * grid)
+    humanised = rng.random() < 0.3
     for _ in range(rng.randrange(1, 6)):
         p = rng.choice(pitches)
         dur = rng.choice([6, 12, 24, 18, 8, 4, 36, 9, 16])
+        if humanised and rng.random() < 0.6:
+            # almost a note value: a later re-quantisation of lengths corrects it, upward as often as downward
+            dur = max(1, dur + rng.choice([-2, -1, 1, 2]))
         lo = -(-last_end.get(p, 0) // grid)
         hi = (limit - dur) // grid
         if hi < lo:
@@ -142,6 +151,14 @@ def gen_bar_spec(rng, n, d, fill="random", channel=0, pitches=None, grid=None):
         on = grid * rng.randrange(lo, hi + 1)
         spec["notes"].append([channel, p, on, dur, rng.randrange(1, 128)])
         last_end[p] = on + dur
+    if humanised and fill in ("full", "open") and rng.random() < 0.6:
+        # ... and one such note ends on (or a tick before) the bar line
+        p = rng.choice(pitches)
+        dur = max(1, rng.choice([6, 12, 24, 18]) + rng.choice([-2, -1, 1, 2]))
+        on = L - dur - rng.choice([0, 0, 1])
+        if on >= last_end.get(p, 0):
+            spec["notes"].append([channel, p, on, dur, rng.randrange(1, 128)])
+            last_end[p] = on + dur
     spec["notes"].sort(key=lambda x: (x[2], x[1]))
     end = max([x[2] + x[3] for x in spec["notes"]], default=0)
     if fill == "full" and end < L:
@@ -803,6 +820,19 @@ class FamWorld:
         fam.pristine = False
         self._after_step(fam, "tokenise")
         if ev.get("detok") and len(self.fams) < MAX_FAMILIES:
+            edit = ev.get("tok_edit") or {}
+            if edit:
+                # a stream as a model would write it, not as tokenise does: bars that a `bar` token closes before they are
+                # full (some rests missing) and an explicit default signature in front - both legal for detokenise, which
+                # skips ahead to the bar line
+                tokens = list(tokens)
+                rests = [i for i, t in enumerate(tokens) if t.startswith("rst_")]
+                for k in sorted({rests[x % len(rests)] for x in edit.get("drop_rests", [])} if rests else (), reverse=True):
+                    del tokens[k]
+                    self.stats["reach_tok/rest_token_dropped_before_detokenise"] += 1
+                if edit.get("tsg_front") and not any(t.startswith("tsg_") for t in tokens):
+                    tokens.insert(0, "tsg_08_08")
+                    self.stats["reach_tok/default_signature_token_put_in_front"] += 1
             seqs, e = _call(tok.detokenise, tokens)
             if e is None:
                 for s in seqs[: MAX_FAMILIES - len(self.fams)]:
@@ -918,6 +948,23 @@ def _snap_diff(old, new):
 # =====================================================================================
 
 def _gen_seq_init(rng, channels=(0,), prop="C16"):
+    if rng.random() < 0.08:
+        # a note-less sequence (signatures, program / control changes, a rest), its events off every grid: the argument for
+        # which "nothing to merge / nothing to normalise" shortcuts are written
+        spec = {k: (list(v) if isinstance(v, list) else v) for k, v in music.EMPTY_SPEC.items()}
+        for _ in range(rng.randrange(1, 4)):
+            t = rng.choice([0, rng.randrange(1, 120), rng.randrange(1, 120)])
+            k = rng.random()
+            if k < 0.4:
+                spec["progs"].append([t, rng.choice(channels), rng.randrange(128)])
+            elif k < 0.7:
+                spec["ccs"].append([t, rng.choice(channels), rng.randrange(120), rng.randrange(128)])
+            elif k < 0.85 and not spec["tsigs"]:
+                spec["tsigs"].append([t, *rng.choice(SIGS[:6])])
+            elif not spec["keys"]:
+                spec["keys"].append([t, rng.choice(music.KEYS)])
+        spec["tail"] = rng.choice([0, 5, 50, rng.randrange(1, 100)])
+        return {"kind": "seq", "spec": spec, "mode": rng.choice(["abs", "rel", "both"])}
     if rng.random() < 0.5:
         spec = music.gen_music(rng, max_notes=rng.choice([3, 6, 10]), channels=channels, allow_empty=False)
         if rng.random() < 0.1:
@@ -972,7 +1019,7 @@ def _gen_act(rng, world, fi, fam, inplace_bias):
     if s is None:
         return {"op": "read", "fam": fi, "target": 0, "name": "read_abs", "args": {}}
     if fam.kind != "seq" and rng.random() < 0.15:
-        return {"op": "bar_transpose", "fam": fi, "target": target, "by": rng.choice([1, 2, -3, 5, 7, -7, 4])}
+        return {"op": "bar_transpose", "fam": fi, "target": target, "by": rng.choice([1, 2, -3, 5, 7, -7, 4, 12, -12, 11, -11, 24, -24])}
     if rng.random() < inplace_bias:
         name = rng.choice(INPLACE)
     else:
@@ -1063,7 +1110,9 @@ def _gen_event(rng, world, knobs, prop):
         if r2 < knobs["p_tok"]:
             return {"op": "tokenise", "fam": fi, "cfg": [rng.random() < 0.6, rng.random() < 0.6, rng.random() < 0.6, rng.random() < 0.6],
                     "how": rng.choice(["bars", "bars", "whole"]), "cuts": [rng.randrange(0, 8) for _ in range(rng.randrange(0, 3))],
-                    "detok": rng.random() < 0.5}
+                    "detok": rng.random() < 0.5,
+                    "tok_edit": ({"drop_rests": [rng.randrange(64) for _ in range(rng.randrange(0, 4))],
+                                  "tsg_front": rng.random() < 0.4} if rng.random() < 0.4 else {})}
         if r2 < knobs["p_tok"] + 0.12:
             return {"op": "to_sequence", "fam": fi}
         if r2 < knobs["p_tok"] + 0.3 and fam.kind == "seq":
@@ -1110,6 +1159,16 @@ def fam_run_one(prop, seed, tier, index):
         return res
     for _ in range(knobs["n_events"]):
         ev = _gen_event(rng, world, knobs, prop)
+        prev = events[-1] if events else None
+        if (prop == "C16" and prev is not None and prev.get("op") == "act" and prev.get("name") in ("merge", "concatenate")
+                and prev.get("ref") is not None and world.fams[prev["fam"] % len(world.fams)].it is None and rng.random() < 0.5):
+            # right after taking the other party as an argument: an operation that moves events of ONE view in place, before
+            # anything rebuilds the receiver from copies
+            name = rng.choice(["quantise", "quantise", "quantise_note_lengths", "cutoff", "direct_edit"])
+            seqs = world.fams[prev["fam"] % len(world.fams)].seqs()
+            if seqs:
+                ev = {"op": "act", "fam": prev["fam"], "target": prev["target"], "name": name,
+                      "args": OPS[name][1](rng, seqs[prev["target"] % len(seqs)])}
         events.append(ev)
         viol = world.apply(ev, len(events) - 1)
         if viol is not None or world.foreign:
